@@ -426,6 +426,8 @@ class Program:
             import types as _ty
             if isinstance(base_, (_ty.SimpleNamespace, Abstract)) and hasattr(base_, node.attr):
                 return getattr(base_, node.attr)          # a symbolic record supplied through env
+            if isinstance(base_, tuple) and node.attr in getattr(base_, "_fields", ()):
+                return getattr(base_, node.attr)          # a folded NamedTuple record
             raise CannotFold(f"attribute not foldable: {unparse(node)}")
         if isinstance(node, ast.Call):
             fn = node.func
@@ -617,6 +619,14 @@ class Program:
                             env3[k_] = env[k_]
                     ret_, ys_ = self.run_body(h, env3)
                     return ys_ if _is_generator(h.node) else ret_
+            # a NamedTuple class of the same module, all fields given (no defaults involved): a record value
+            if isinstance(fn, ast.Name) and fn.id in mod.classes and mod.classes[fn.id].is_namedtuple and not any(k.arg is None for k in node.keywords):
+                cls_nt = mod.classes[fn.id]
+                vals_nt = dict(zip(cls_nt.fields, [f(a) for a in node.args]))
+                vals_nt.update({k.arg: f(k.value) for k in node.keywords})
+                if list(vals_nt) == list(cls_nt.fields) or set(vals_nt) == set(cls_nt.fields):
+                    import collections as _co
+                    return _co.namedtuple(cls_nt.name, cls_nt.fields)(**vals_nt)
             raise CannotFold(f"call not foldable: {unparse(node)}")
         if isinstance(node, ast.DictComp) and len(node.generators) == 1:
             gen = node.generators[0]
